@@ -20,6 +20,7 @@ from ..core.defuse import rd_of, Expander, fmt_term, term_alts
 from ..core import terms as T
 from ..core.loader import unparse, AnalysisError, FunctionInfo
 from ..core.resolve import resolve_callee, bind_args
+from ..core.slicing import backward_slice
 from ..rules.effects import PathAnalysis
 
 ID = 'C20'
@@ -64,6 +65,7 @@ SANITIZER = 'utils.cloud_utils:sanitize_paths'
 def check(ctx):
     pa = PathAnalysis(ctx.db, ctx.cg)
     check_sanitizer_shape(ctx)
+    check_sanitizer_words(ctx)
     check_run_mapping(ctx)
     check_write_log(ctx)
     check_otf(ctx)
@@ -124,6 +126,67 @@ def check_sanitizer_shape(ctx):
                if v else
                f'sanitize_paths no longer handles {k} values: paths '
                'nested in the configuration / log would pass unchanged')
+
+
+def check_sanitizer_words(ctx):
+    """inside the string arm of the sanitiser: what is replaced is the word
+    as it occurs in the text, and what it is replaced by carries no
+    directory of the host"""
+    db = ctx.db
+    fi = db.fn(SANITIZER)
+    cfg = cfg_of(fi)
+    rd = rd_of(fi)
+    ex = Expander(fi)
+    rule = 'R-SAMEVAL/sanitizer-substitution'
+    # the table(s) whose keys are fed to str.replace as the text to replace
+    tables = set()
+    for n in ast.walk(fi.node):
+        if isinstance(n, ast.Call) and isinstance(n.func, ast.Attribute) \
+                and n.func.attr == 'replace' and len(n.args) == 2:
+            sl = backward_slice(fi, n.args[1])
+            for st in ast.walk(fi.node):
+                if isinstance(st, ast.Assign) and isinstance(
+                        st.targets[0], ast.Subscript) and isinstance(
+                            st.targets[0].value, ast.Name) \
+                        and st.targets[0].value.id in sl.names:
+                    tables.add(st.targets[0].value.id)
+    stores = []
+    for node in cfg.nodes:
+        if node.kind == 'stmt' and node.id in rd.live and isinstance(
+                node.ast, ast.Assign) and isinstance(
+                    node.ast.targets[0], ast.Subscript) and isinstance(
+                        node.ast.targets[0].value, ast.Name) \
+                and node.ast.targets[0].value.id in tables:
+            stores.append(node)
+    if not stores:
+        ctx.fail(rule, 'sanitize_paths:table', fi.loc(),
+                 'no table of (word -> replacement) feeding str.replace '
+                 'was found in the string arm of the sanitiser')
+        return
+    for node in stores:
+        st = node.ast
+        kt = ex.expand(st.targets[0].slice, node.id)
+        ok = kt[0] == 'iterelem' and T.call_name(kt[1]) == 'split'
+        ctx.ob(rule, 'sanitize_paths:replaced-text', fi.loc(st), ok,
+               'the text that is replaced is the word exactly as it '
+               'occurs in the message' if ok else
+               f'the text to replace is `{unparse(st.targets[0].slice)}` '
+               f'(= {fmt_term(kt)[:80]}), not the word as it occurs in the '
+               'message: str.replace does nothing when that spelling is '
+               'not a substring (quotes, `//`, `/./`), and the absolute '
+               'path stays')
+        vt = ex.expand(st.value, node.id)
+        bad = None
+        for alt in term_alts(vt):
+            txt = fmt_term(alt)
+            if not (alt[0] == 'attr' and alt[-1] == 'name') \
+                    and 'relative_to' not in txt:
+                bad = txt
+        ctx.ob(rule, 'sanitize_paths:replacement', fi.loc(st), bad is None,
+               'the replacement is the file name, or the path relative to '
+               'the package' if bad is None else
+               f'a word can be replaced by {bad[:80]}, which is neither '
+               'a bare file name nor a package-relative path')
 
 
 def check_run_mapping(ctx):
